@@ -59,7 +59,9 @@ S = Suite(
 )
 
 TOL_XPROC = 1e-12
-_NPLOAD_OK = (OSError, ValueError, EOFError, zipfile.BadZipFile, KeyError)
+# the np.load contract: a damaged entry raises SOME exception (truncations: OSError / ValueError / EOFError / BadZipFile /
+# KeyError; a damaged archive directory: NotImplementedError, RuntimeError) -- never returns other data silently
+_NPLOAD_OK = (OSError, ValueError, EOFError, zipfile.BadZipFile, KeyError, NotImplementedError, RuntimeError)
 
 # ------------------------------------------------------------------------------- requests
 BASE = dict(nx=16, ny=12, flux_seed=1, nz=6, zm=5.0, closure="MOST", zscale=1.0,
@@ -516,10 +518,27 @@ def entry(variant):
     return _ENTRY[variant]
 
 
+def _damage(raw, k, how):
+    """What an interrupted or disturbed write leaves behind: the file cut at byte k; a block of zeros where the pages
+    after byte k never reached the disk (length kept, tail intact); one byte flipped at k."""
+    if how == "cut":
+        return raw[:k]
+    if how == "zero-block":
+        n = max(1, len(raw) // 8)
+        return raw[:k] + bytes(min(n, len(raw) - k)) + raw[k + n:]
+    if how == "flip":
+        if k >= len(raw):
+            return raw
+        return raw[:k] + bytes([raw[k] ^ 0xFF]) + raw[k + 1:]
+    raise ValueError(how)
+
+
 @S.kind("truncate")
-def truncate(variant, offset):
+def truncate(variant, offset, damage="cut"):
     raw, fname, want, req = entry(variant)
     k = min(int(offset), len(raw))
+    if damage != "cut":
+        return _damaged(variant, k, damage)
     Rec = rec_class()
     d = _tmpdir()
     try:
@@ -555,15 +574,41 @@ def truncate(variant, offset):
                    nontrivial=_nontrivial(want) and (k < len(raw) or c.hits > 0))
 
 
+def _damaged(variant, k, damage):
+    """An entry damaged in its interior (length and tail intact): the request must not raise and must return the right
+    fields -- either the damage is detected (a miss, solved again) or the damaged bytes were padding."""
+    raw, fname, want, req = entry(variant)
+    bad_bytes = _damage(raw, k, damage)
+    Rec = rec_class()
+    d = _tmpdir()
+    try:
+        with open(os.path.join(d, fname), "wb") as f:
+            f.write(bad_bytes)
+        c = Rec(d)
+        try:
+            got = solve(req, c)
+        except Exception as e:
+            return Verdict(False, "entry of %d bytes, %s at %d: solver call raised %s (%s)"
+                           % (len(raw), damage, k, type(e).__name__, str(e)[:80]), key="damaged-entry-raises")
+        bad = differs(got, want)
+        if bad:
+            return Verdict(False, "entry %s at %d/%d: %s, fields differ: %s" % (damage, k, len(raw), "served as a hit" if c.hits else "after the miss", bad),
+                           key="damaged-entry-wrong-data" if c.hits else "wrong-result-after-corrupt-miss")
+    finally:
+        shutil.rmtree(d, ignore_errors=True)
+    return Verdict(True, "%s at %d/%d: %s, right fields" % (damage, k, len(raw), "hit" if c.hits else "miss"),
+                   nontrivial=_nontrivial(want) and bad_bytes != raw)
+
+
 @S.kind("npload-contract")
-def npload_contract(variant, offset):
+def npload_contract(variant, offset, damage="cut"):
     raw, fname, want, req = entry(variant)
     k = min(int(offset), len(raw))
     d = _tmpdir()
     try:
         path = os.path.join(d, fname)
         with open(path, "wb") as f:
-            f.write(raw[:k])
+            f.write(_damage(raw, k, damage))
         try:
             with np.load(path) as data:
                 got = [data[n] for n in _NAMES]
@@ -644,6 +689,11 @@ def generate(tier, rng):
             yield "truncate", dict(variant=variant, offset=k)
         for k in _offsets(n, tier):
             yield "npload-contract", dict(variant=variant, offset=k)
+        # damage that keeps length and tail (zero-filled block, one flipped byte) at a coarser set of positions
+        for damage in ("zero-block", "flip"):
+            for k in _offsets(n, tier)[1:-1:(1 if tier == "thorough" else 4)]:
+                yield "truncate", dict(variant=variant, offset=k, damage=damage)
+                yield "npload-contract", dict(variant=variant, offset=k, damage=damage)
 
 
 def _quiet_exit():
